@@ -28,31 +28,38 @@ def arity(o):
     return 1 if IX[o] <= 3 else 3 if o == "cond" else 2
 
 
-NATIVE = ["/repo/mir.c"]   # native replay only: c2mir.c references the MIR API at link time
+# native replay only: c2mir.c references the MIR API (never called by these harnesses); leaving the symbols
+# unresolved saves compiling mir.c with ASan for every reproduced counterexample (30 s -> 8 s)
+NATIVE = ["-no-pie", "-Wl,--unresolved-symbols=ignore-all"]
 
 
 def eval_ob(name, defs, heavy, depth, sample, timeout):
+    # back end: term-level SMT for 64-bit multipliers/dividers, CaDiCaL for barrel shifters, MiniSat otherwise
     # recursion of eval: "eval:k" allows k+1 nested activations = the depth of the tree; a deeper call is an
     # unwinding assertion (the arm of ?: is selected through a symbolic pointer: symex cannot see that it is a leaf)
     return Ob(name, "C09/eval.c", defs=defs, unwind=26, unwindset={"eval": depth},
               loops={"harness#0": 9, "DLIST_node_t_el#0": 4, "DLIST_node_t_el#1": 4},
-              object_bits=10, solver="z3" if heavy else None, timeout=timeout, sample=sample, native_cc=NATIVE)
+              object_bits=10, solver="z3" if heavy is True else heavy if heavy else None, timeout=timeout, sample=sample, native_cc=NATIVE)
+
+
+SHIFTS = {"lsh", "rsh"}
 
 
 def shape1(o, tier, extra=(), suffix=""):
     heavy = o in HEAVY
-    # leaf kinds: all 9 for unary/binary light operators in the thorough tier, {N_LL,N_ULL,N_CH} quick,
+    back = True if heavy else "cadical" if o in SHIFTS else None
+    # leaf kinds: thorough 9 (unary) / 5 (binary) / 4 (?:) per operand, {N_LL,N_ULL,N_CH} quick,
     # {N_LL,N_ULL} for * / % (64-bit multiplier) - every (value, signedness) pair an operand can have is still covered
-    nk = 2 if heavy else (9 if tier == "thorough" and arity(o) < 3 else 4 if tier == "thorough" else 3)
-    return eval_ob("op.%s%s" % (o, suffix), ["OP=%d" % IX[o], "H_SHAPE=1", "H_NK=%d" % nk] + list(extra), heavy,
+    nk = 2 if heavy else 3 if tier == "quick" else {1: 9, 2: 5, 3: 4}[arity(o)]
+    return eval_ob("op.%s%s" % (o, suffix), ["OP=%d" % IX[o], "H_SHAPE=1", "H_NK=%d" % nk] + list(extra), back,
                    1,
                    "#if a %s b%s : all 64-bit values, %d leaf kinds per operand%s"
                    % (SYM[IX[o]], " : c" if o == "cond" else "", nk, (" [" + " ".join(extra) + "]") if extra else ""),
                    600 if tier == "thorough" else 240)
 
 
-def shape2(i, o, p, tier, c0=None, c3=None):
-    heavy = i in HEAVY or o in HEAVY
+def shape2(i, o, p, tier, c0=None, c3=None, extra=(), suffix=""):
+    heavy = True if (i in HEAVY or o in HEAVY) else "cadical" if (i in SHIFTS or o in SHIFTS) else None
     defs = ["OP=%d" % IX[o], "H_SHAPE=2", "H_POS=%d" % p, "H_NK=2", "H_OP1_LO=%d" % IX[i], "H_OP1_HI=%d" % (IX[i] + 1)]
     name = "d2.%s.in.%s.%d" % (i, o, p)
     if c0 is not None:
@@ -61,6 +68,10 @@ def shape2(i, o, p, tier, c0=None, c3=None):
     if c3 is not None:
         defs.append("H_C3=%d" % c3)
         name += ".i%d" % c3
+    if o == "cond" and ((p == 1 and c0 == 0) or (p == 2 and c0 == 1)):
+        defs.append("H_UNEVAL")
+    defs += list(extra)
+    name += suffix
     return eval_ob(name, defs, heavy, 2,
                    "operand %d of '%s' is an '%s' expression%s%s; leaves N_LL/N_ULL, all 64-bit values"
                    % (p, SYM[IX[o]], SYM[IX[i]], "" if c0 is None else " (outer condition = %d)" % c0,
@@ -83,8 +94,9 @@ def d2_pairs(tier):
     `<` `>>` are the forms quoted in finding F6 (they are hit by F6 themselves)."""
     if tier == "quick":
         pairs = []
-        for i in ["eq", "lt", "not", "lsh", "rsh", "cond"]:       # the operators of F6, observed
-            pairs += [(i, "sub", 0), (i, "div", 0)]
+        for i in ["eq", "lt", "not", "lsh", "rsh", "cond"]:       # the operators of F6, observed in the type
+            pairs.append((i, "sub", 0))
+        pairs += [("eq", "div", 0), ("cond", "div", 0)]           # ... and in the value
         pairs += [("rsh", "lt", 0), ("cond", "lt", 0)]            # (a >> b) < c, (a ? b : c) < d
         for i in ["add", "neg", "bitnot", "andand", "and"]:       # operators not hit by F6
             pairs.append((i, "sub", 0))
@@ -130,6 +142,8 @@ def obligations(tier):
     for i, o, p in d2_pairs(tier):
         for v in d2_variants(i, o, p):
             obs.append(shape2(v[0], v[1], v[2], tier, v[3], v[4]))
+            if i in HEAVY and o == "cond":   # "no error for a zero divisor in the arm not selected", decided apart from F6
+                obs.append(shape2(v[0], v[1], v[2], tier, v[3], v[4], ["H_EXCLUDE_F6"], ".xF6"))
     ln = 3 if tier == "quick" else 4
     for mode, nm in ((1, "stringify"), (2, "destringify"), (3, "roundtrip")):
         obs.append(Ob("str." + nm, "C09/strfy.c", defs=["H_MODE=%d" % mode, "H_LEN=%d" % ln], unwind=2 * ln + 10,
@@ -144,7 +158,7 @@ def check(tier, only=None):
         obs = [o for o in obs if only in o.name]
     meta = {
         "bounds": {
-            "tree depth": "<= 2 operator levels (one operator over leaves: all 23 operators; depth 2: quick = 24 "
+            "tree depth": "<= 2 operator levels (one operator over leaves: all 23 operators; depth 2: quick = 22 "
                           "(inner, outer, position) triples, thorough = all pairs of the 20 light operators at every "
                           "operand position + selected pairs with * / %)",
             "?: condition": "the condition of every ?: is the CONSTANT 0 or 1 (both enumerated); a symbolic condition "
@@ -152,8 +166,8 @@ def check(tier, only=None):
                             "attempted only as thorough obligation op.cond.sym; a ?: whose condition is an operator "
                             "expression is not encoded.  Zero / non-zero tests of all 64-bit values are covered by ! && ||",
             "leaf values": "all 64-bit values",
-            "leaf kinds": "leaf obligation: all 9 node codes; operator obligations: N_LL, N_ULL, N_CH (quick), all 9 "
-                          "(thorough, unary/binary), 4 kinds for ?:, N_LL/N_ULL for * / % and for depth 2",
+            "leaf kinds": "leaf obligation: all 9 node codes; operator obligations: N_LL, N_ULL, N_CH (quick); thorough: 9 "
+                          "kinds (unary), 5 (binary: + N_I, N_U), 4 (?:); N_LL/N_ULL for * / % and for depth 2",
             "strings": "every byte string without NUL of length <= 3 (quick) / 4 (thorough)",
         },
         "assumptions": [
@@ -175,26 +189,3 @@ def check(tier, only=None):
         ],
     }
     return run_all("C09", tier, obs, "model_checking", meta)
-
-
-def replay(path):
-    """./check C09 --replay <path>: as vlib.replay_file, plus mir.c on the native link line."""
-    import os, re, shutil, tempfile
-    import vlib
-    m = re.match(r"# harness=(\S+) defs=(.*)$", open(path).readline().strip())
-    if not m:
-        print("not a replay file: " + path)
-        return 2
-    ob = Ob("replay", m.group(1), defs=m.group(2).split(), native_cc=NATIVE)
-    scratch = tempfile.mkdtemp(prefix="verif-replay-")
-    try:
-        exe, err = vlib.build_native(ob, scratch)
-        if exe is None:
-            print(err)
-            return 2
-        env = dict(os.environ, ASAN_OPTIONS="detect_leaks=0", UBSAN_OPTIONS="print_stacktrace=1")
-        rc, out, _ = vlib.run([exe, path], 120, 0, env=env)
-        print(out)
-        return 0 if rc == 0 else 1
-    finally:
-        shutil.rmtree(scratch, ignore_errors=True)
